@@ -102,7 +102,13 @@ class iterable_loader(DataStreamProcessor):
     def process_datapackage(self, dp: Package):
         name = self.name
         if name is None:
-            name = 'res_{}'.format(len(dp.resources) + 1)
+            # res_<number of resources + 1>, or the next number that is free: after resources were deleted
+            # or merged that name may belong to a resource that is still there
+            taken = set(dp.resource_names)
+            index = len(dp.resources) + 1
+            while 'res_{}'.format(index) in taken:
+                index += 1
+            name = 'res_{}'.format(index)
         self.res = Resource(dict(
             name=name,
             path='{}.csv'.format(name)
